@@ -74,7 +74,7 @@ def genOp (j : Json) : Except String Json := do
     pure (finish jStrs (addSubTwoNumbers (← getStrs a "a") (← getStrs a "b") (getBool a "big_endian")) st)
   | "add_subtract_with_compare" =>
     pure (finish jListLabel (addSubtractWithCompare (← getStrs a "a") (← getStrs a "b") (getBool a "big_endian")) st)
-  | "add_equal" => pure (finish Json.str (addEqual (← getStrs a "ins") (← getNat a "num")) st)
+  | "add_equal" => pure (finish Json.str (addEqualZ (← getStrs a "ins") (← (← a.getObjVal? "num").getInt?)) st)
   | "add_plus_one" =>
     pure (finish jStrs (addPlusOne (← getStrs a "ins") (← getOptStrs a "result_labels") (getBool a "add_outputs") (getBool a "big_endian")) st)
   | "add_if_then_else" =>
